@@ -205,7 +205,10 @@ def run_exception(m1: str, m2: str, frag: int) -> bool:
 def _exception_case(kind, vi, lk, msg):
     STATE["result"], STATE["exc"], STATE["listener"], STATE["lstatus"] = 0, (kind, msg), lk, 3
     app = APP_L if lk else APP
-    status, out, err = _run(app, ["work", "x"] + VERB[vi])
+    try:
+        status, out, err = _run(app, ["work", "x"] + VERB[vi])
+    except KeyboardInterrupt:
+        return False                      # a run never raises, whatever the handler raised
     if not (isinstance(status, int) and 0 <= status <= 255):
         return False
     if lk == 2:                       # the listener handled the command: its status, handler not run
@@ -238,6 +241,31 @@ def run_exception_twin(m1: str, m2: str, frag: int) -> bool:
     return "ValueError" not in out     # twin: the full report really is printed
 
 
+def _late_listener_case(kind, prio):
+    """A pre-handle listener registered AFTER a first run takes part in the next run (handles / fails / passes)."""
+    app = _build(False)
+    STATE["result"], STATE["exc"], STATE["listener"], STATE["lstatus"] = 0, None, kind, 3
+    s0, o0, e0 = _run(app, ["work", "x"])
+    if s0 != 0 or len(STATE["calls"]) != 1:
+        return False
+    app.config.add_event_listener(ce.PRE_HANDLE, _listener, prio)
+    s1, o1, e1 = _run(app, ["work", "x"])
+    if kind == 1:
+        return s1 == 0 and len(STATE["calls"]) == 1
+    if kind == 2:
+        return s1 == 3 and STATE["calls"] == []
+    return s1 != 0 and STATE["calls"] == [] and "listener failed" in o1 + e1
+
+
+def late_listener(kind: int, prio: int) -> bool:
+    """
+    pre: 1 <= kind <= 3 and -1 <= prio <= 1
+    post: _
+    """
+    from vf.sym import conc_int
+    return untraced(_late_listener_case, conc_int(kind, 1, 3), conc_int(prio, -1, 1))
+
+
 def no_other_handler(which: int, r: int) -> bool:
     """
     pre: 0 <= which <= 2
@@ -262,6 +290,7 @@ def conditions(tier):
         {"name": "run_result_numstr[100..999]", "fn": run_result_numstr, "timeout": t, "part": {"lo": 100, "hi": 999}, "bounds": "handler result = str(n), 100 <= n <= 999"},
         {"name": "run_result_other", "fn": run_result_other, "timeout": t, "bounds": "None/False/True/''/numeric strings/lists and 9 pinned floats"},
         {"name": "no_other_handler", "fn": no_other_handler, "timeout": t, "bounds": "3 commands x result in -2..2"},
+        {"name": "late_listener", "fn": late_listener, "timeout": t, "bounds": "pre-handle listener (passes / handles / raises) registered after a first run, priority -1/0/1"},
     ]
     for kind in range(len(EXC_KINDS)):
         simple = EXC_KINDS[kind] in ("CliKitException", "MyCliError", "KeyboardInterrupt")
